@@ -3,6 +3,7 @@
    direction; thr: the threshold; m2o: allow_many_to_one.  "conf" = share a prediction (many-to-one)
    or share either partner (one-to-one). *)
 From Pan Require Import Base.Common Model.MetricTable Model.Metrics Model.Matcher Proofs.Matching Proofs.MatcherQ.
+From Pan Require Import Model.Metrics Model.MetricTable Proofs.HalfUnique.
 Open Scope Z_scope.
 
 (* terminates with a result for every input and option (the loop never raises); the result is
@@ -58,3 +59,24 @@ Proof.
   repeat split; try (vm_compute; reflexivity).
   repeat constructor; cbn; intuition discriminate.
 Qed.
+
+(* ---- "above an overlap of one half a segment has at most one partner": true for IoU (exact quotients and reported doubles alike),
+   so with IoU and a threshold above one half nothing competes and the matching is exactly the set of candidates meeting the threshold,
+   one-to-one or many-to-one; FALSE for Dice (a reference of nine voxels predicted as 5 + 4: both parts score above 0.6), which is
+   why the "reference already matched" test cannot be dropped for increasing metrics in general (seeded change C01-m) *)
+Theorem C03_iou_above_half_unique_reference : forall a p r1 r2, r1 <> r2 ->
+  (1 # 2 < iou (Some (r1, [p])) a)%Q -> (1 # 2 < iou (Some (r2, [p])) a)%Q -> False.
+Proof. exact iou_above_half_unique_reference. Qed.
+
+Theorem C03_iou_above_half_unique_prediction : forall a r p1 p2, p1 <> p2 ->
+  (1 # 2 < iou (Some (r, [p1])) a)%Q -> (1 # 2 < iou (Some (r, [p2])) a)%Q -> False.
+Proof. exact iou_above_half_unique_prediction. Qed.
+
+Theorem C03_iou_above_half_all_matched : forall m2o thr a M, (1 # 2 < thr)%Q ->
+  naive_match false m2o thr (candidates IOU a) = Ok M ->
+  forall c, In c M <-> (In c (candidates IOU a) /\ beats false (fst c) thr = true).
+Proof. exact iou_above_half_all_matched. Qed.
+
+Theorem C03_dice_above_half_competes :
+  (6 # 10 < dice (Some (1%Z, [1%Z])) split9)%Q /\ (6 # 10 < dice (Some (1%Z, [2%Z])) split9)%Q.
+Proof. exact dice_above_half_not_unique. Qed.
